@@ -393,6 +393,64 @@ def replay_fractional(p):
     return bad, f"request for {p['count']} samples {how}: antenna clock {clocks[0]!r}, stream clocks {clocks[1:]!r}"
 
 
+def job_request_length_fp(n):
+    """binary64 (rounded-real model, every operation with its own relative error): a request for n samples returns
+    exactly n samples and n time stamps, for every sample rate and start time -- a time grid built from a floating-point
+    range whose end is n*dt may come out one element long"""
+    from symx import fp
+    from symx.fp import FSym
+    recs = []
+    fp.reset()
+    pre = []
+    sr = FSym.var('sr', 1e-3, 1e12, pre)
+    t0 = FSym.var('t0', 0, 1e10, pre)
+    tag = f"C10:request-length-fp:{n}"
+
+    def run():
+        s = DS.DataStream(sample_rate=sr, fch1=FSym(RV(0.0)), ascending=True, t_start=t0, seed=1)
+        v = s.get_samples(n)
+        return len(v), len(s.ts)
+    with volt_patches(proxy=proxy()):
+        leaves = core.explore(run, pre, cap=12)
+    conds = []
+    for li, leaf in enumerate(leaves):
+        conds.append(leaf.cond())
+        base = pre + leaf.pc + leaf.side + list(fp.SIDE)
+        name = f"{tag}:leaf{li}"
+        if leaf.kind == 'exc':
+            r, m = core.check(base, timeout_ms=30000)
+            recs.append(q(name + ':noexc', r, detail=repr(leaf.value)))
+            if r == 'sat':
+                recs.append(cex('C10:request-length:raise', f'a request for {n} samples raised {leaf.value!r}', dict(fn='request_length', n=n), name=name + ':noexc'))
+            continue
+        lv, lt = leaf.value
+        if (lv, lt) == (n, n):
+            recs.append(q(name, 'unsat', trivial=True, detail='lengths are n on this path'))
+            continue
+        r, m = core.check(base, timeout_ms=60000)            # is the path with a wrong length feasible in binary64?
+        recs.append(q(name, r, lengths=str((lv, lt))))
+        if r == 'sat':
+            recs.append(cex('C10:request-length', f'in binary64 a request for {n} samples can return {lv} samples ({lt} time stamps) (candidate)', dict(fn='request_length', n=n, vals=core.model_vals(m, ['sr', 't0'])), name=name))
+    r, _ = core.check(pre + list(fp.SIDE) + [z3.Not(z3.Or(*conds))], timeout_ms=30000)
+    recs.append(q(f"{tag}:split-complete", r, leaves=len(leaves)))
+    return recs
+
+
+def replay_request_length(p):
+    from setigen.voltage import data_stream as ds
+    v = p.get('vals') or {}
+    rates = [3e9, 10.0, 1000.0, 2.5e6] + ([v['sr']] if v.get('sr') else [])
+    bad = []
+    for sr in rates:
+        s = ds.DataStream(sample_rate=sr, seed=1)
+        for n in sorted(set(list(range(1, 400)) + [p['n'], 1024 * 15, 4999])):
+            out = s.get_samples(n)
+            if len(out) != n or len(s.ts) != n:
+                bad.append((sr, n, len(out)))
+                break
+    return bool(bad), f"requests that do not return their own size (rate, requested, returned): {bad[:4]}" if bad else 'every request returns its own number of samples'
+
+
 def job_reseed(asc, N):
     """the stream's generator is re-assigned after the noise source was added (a replay with a fresh seeded generator):
     from then on the noise is the NEW generator's sequence -- the source is bound to the stream, not to the generator
@@ -634,7 +692,7 @@ def replay_antenna(p):
     return bool(msgs), '; '.join(msgs) or 'antenna ok'
 
 
-REPLAYS = {'stream': replay_stream, 'antenna': replay_antenna, 'fractional': replay_fractional, 'resync': replay_resync, 'units': replay_units, 'reseed': replay_reseed}
+REPLAYS = {'stream': replay_stream, 'antenna': replay_antenna, 'fractional': replay_fractional, 'resync': replay_resync, 'units': replay_units, 'reseed': replay_reseed, 'request_length': replay_request_length}
 
 
 def main():
@@ -661,6 +719,8 @@ def main():
         for num_pols in (1, 2):
             jobs.append(('job_antenna', (num_pols, asc, 3 if not ck.thorough else 4)))
         jobs.append(('job_antenna', (2, asc, 2, True)))
+    for n_ in (1, 3, 15):
+        jobs.append(('job_request_length_fp', (n_,)))
     for asc in (True, False):
         jobs.append(('job_reseed', (asc, 3)))
         jobs.append(('job_units', (asc, 2 if asc else 1)))
